@@ -93,6 +93,18 @@ class Interp:
         if isinstance(e, ast.BinOp) and isinstance(e.op, ast.BitAnd):
             l, r = self.ev(e.left, env), self.ev(e.right, env)
             return Elem(l.member and r.member, l.member and r.member)  # non-emptiness of an intersection: witnessed by x only
+        if isinstance(e, ast.BinOp) and isinstance(e.op, ast.Sub):
+            l, r = self.ev(e.left, env), self.ev(e.right, env)
+            return Elem(l.member and not r.member, l.member and not r.member)  # set difference, witnessed by x only
+        if isinstance(e, ast.BinOp) and isinstance(e.op, ast.BitXor):
+            l, r = self.ev(e.left, env), self.ev(e.right, env)
+            return Elem(l.member != r.member, l.member != r.member)
+        if isinstance(e, ast.Call) and isinstance(e.func, ast.Attribute) and e.func.attr in ("union", "difference", "intersection") and len(e.args) == 1:
+            l, r = self.ev(e.func.value, env), self.ev(e.args[0], env)
+            m = {"union": l.member or r.member, "difference": l.member and not r.member, "intersection": l.member and r.member}[e.func.attr]
+            return Elem(m, (l.nonempty or r.nonempty) if e.func.attr == "union" else m)
+        if isinstance(e, ast.Call) and (dotted(e.func) or "") in ("dict.fromkeys", "stable_unique", "OrderedDict.fromkeys") and len(e.args) == 1:
+            return self.ev(e.args[0], env)  # order-preserving de-duplication: same elements
         if isinstance(e, ast.Call) and isinstance(e.func, ast.Name) and e.func.id in ("tuple", "list", "frozenset", "set", "sorted") and len(e.args) == 1:
             return self.ev(e.args[0], env)
         if isinstance(e, ast.Call) and isinstance(e.func, ast.Name) and e.func.id == "tuple" and not e.args:
@@ -274,6 +286,23 @@ def run(ctx):
     ids_ok = any(M.has(uw.node.body, "if not ids:\n    raise $_\n...\n" + init, {"wire": wire})
                  for init in ("$wire: $_ = {'ids': [BugId(int($x)) for $x in ids]}", "$wire = {'ids': [BugId(int($x)) for $x in ids]}"))
     ctx.check("R4", uw, ids_ok, "ids-always", "the id list is always sent and must not be empty")
+    # every emission is passed on every way out: no early return can skip a set field
+    from ..core.cfg import cfg_of
+    gw = cfg_of(uw.node)
+    domw = gw.dominators()
+    def top_stmt(n):
+        for st_ in uw.node.body:
+            if st_ is n or A.contains_node(st_, n):
+                return st_
+        return n
+    em_nodes = {f: gw.node_of(top_stmt(e[2])) for f, e in emitted.items() if e is not None and f in fields}
+    for r in urets:
+        rn = gw.node_of(r)
+        skipped = sorted(f for f, n in em_nodes.items() if n is not None and n not in domw.get(rn, ()))
+        ctx.check("R4", uw, not skipped, "return-skips-fields:" + ",".join(skipped[:4]),
+                  f"`return {A.unparse(r.value)}` (line {r.lineno}) is reached only after every field had its chance to be emitted",
+                  f"BugUpdate.to_wire can `return` at line {r.lineno} before the emission of {skipped[:6]}{'...' if len(skipped) > 6 else ''}: set fields are left out of the payload "
+                  f"(e.g. an update whose only set fields are falsy — whiteboard='' — is sent as ids only)", node=r)
     ctx.floor("R4", 30)
 
 
